@@ -9,6 +9,7 @@ package guard
 
 import (
 	"fmt"
+	"sort"
 	"go/constant"
 	"go/token"
 	"go/types"
@@ -86,6 +87,19 @@ type Atom struct {
 	A, B *regexp.Regexp
 	Pol  bool
 	Req  [][]Atom // conjunction-by-dominance: the testing block must itself pass each of these disjunctions
+	// ForAll: Kind == "forall": the normal exit of a range loop over a slice whose term matches A, in which every
+	// full iteration passes one of Inner.
+	Inner []Atom
+}
+
+// ForAll: "for every element of the slice `over`, one of inner holds" — recognised as a range loop over it
+// whose every iteration passes an inner atom; the pass edge is the loop's normal exit.
+func ForAll(over string, inner ...Atom) Atom {
+	var ds []string
+	for _, x := range inner {
+		ds = append(ds, x.Desc)
+	}
+	return Atom{Desc: "for all elements of " + over + ": " + strings.Join(ds, " or "), Kind: "forall", A: Glob(over), Inner: inner}
 }
 
 // With returns the atom restricted to tests that are dominated by the given guards.
@@ -152,6 +166,13 @@ type Checker struct {
 // directCut: edges on which one of the atoms holds by the branch condition itself.
 func (c *Checker) directCut(atoms []Atom) map[cfgx.Edge]bool {
 	cut := map[cfgx.Edge]bool{}
+	for _, a := range atoms {
+		if a.Kind == "forall" {
+			for e := range c.forallEdges(a) {
+				cut[e] = true
+			}
+		}
+	}
 	for _, b := range c.Fn.Blocks {
 		iff := cfgx.IfOf(b)
 		if iff == nil || len(b.Succs) != 2 {
@@ -183,6 +204,63 @@ func (c *Checker) directCut(atoms []Atom) map[cfgx.Edge]bool {
 		}
 	}
 	return cut
+}
+
+// forallEdges: exit edges of range loops over a slice matching a.A in which every iteration passes a.Inner.
+func (c *Checker) forallEdges(a Atom) map[cfgx.Edge]bool {
+	out := map[cfgx.Edge]bool{}
+	for _, l := range cfgx.Loops(c.Fn) {
+		iff := cfgx.IfOf(l.Header)
+		if iff == nil || len(l.Header.Succs) != 2 {
+			continue
+		}
+		// range-over-slice header: (φ+1) < len(X)
+		bo, ok := iff.Cond.(*ssa.BinOp)
+		if !ok || bo.Op != token.LSS {
+			continue
+		}
+		call, ok := bo.Y.(*ssa.Call)
+		if !ok {
+			continue
+		}
+		if bi, ok := call.Call.Value.(*ssa.Builtin); !ok || bi.Name() != "len" || len(call.Call.Args) != 1 {
+			continue
+		}
+		xt := c.Res.Of(call.Call.Args[0]).String()
+		if !a.A.MatchString(strings.ReplaceAll(xt, "~", "")) && !a.A.MatchString(xt) {
+			continue
+		}
+		if !l.Body[l.Header.Succs[0]] || l.Body[l.Header.Succs[1]] {
+			continue
+		}
+		inner := c.directCut(a.Inner)
+		// every cycle header -> ... -> header must pass an inner edge
+		seen := map[*ssa.BasicBlock]bool{}
+		st := []*ssa.BasicBlock{l.Header.Succs[0]}
+		cycles := false
+		for len(st) > 0 {
+			b := st[len(st)-1]
+			st = st[:len(st)-1]
+			if b == l.Header {
+				cycles = true
+				break
+			}
+			if seen[b] {
+				continue
+			}
+			seen[b] = true
+			for _, s2 := range b.Succs {
+				if !l.Body[s2] || inner[cfgx.Edge{From: b, To: s2}] {
+					continue
+				}
+				st = append(st, s2)
+			}
+		}
+		if !cycles {
+			out[cfgx.Edge{From: l.Header, To: l.Header.Succs[1]}] = true
+		}
+	}
+	return out
 }
 
 // PassEdges is kept for diagnostics: the direct pass edges.
@@ -342,10 +420,26 @@ func (c *Checker) search(target *ssa.BasicBlock, atoms []Atom) (bool, []*ssa.Bas
 	type node struct {
 		b    *ssa.BasicBlock
 		val  valuation
+		eqc  map[string]string // term -> constant it equals on this path
+		nec  map[string]string // term -> "|c1|c2|" constants it differs from
 		prev *node
 	}
+	factKey := func(eqc, nec map[string]string) string {
+		if len(eqc) == 0 && len(nec) == 0 {
+			return ""
+		}
+		var ks []string
+		for k, v := range eqc {
+			ks = append(ks, k+"="+v)
+		}
+		for k, v := range nec {
+			ks = append(ks, k+"!"+v)
+		}
+		sortStrings(ks)
+		return strings.Join(ks, ";")
+	}
 	entry := c.Fn.Blocks[0]
-	start := &node{b: entry, val: valuation{}}
+	start := &node{b: entry, val: valuation{}, eqc: map[string]string{}, nec: map[string]string{}}
 	seen := map[pstate]bool{{entry, start.val.key(order)}: true}
 	q := []*node{start}
 	for len(q) > 0 {
@@ -374,6 +468,7 @@ func (c *Checker) search(target *ssa.BasicBlock, atoms []Atom) (bool, []*ssa.Bas
 			for k, x := range n.val {
 				nv[k] = x
 			}
+			neq, nne := n.eqc, n.nec
 			if iff != nil && len(n.b.Succs) == 2 {
 				v, pol := stripNot(iff.Cond)
 				truth := (si == 0) == pol // value of v on this edge
@@ -389,6 +484,35 @@ func (c *Checker) search(target *ssa.BasicBlock, atoms []Atom) (bool, []*ssa.Bas
 				}
 				if nt, known := nilCond(v, nv); known && nt != truth {
 					continue // infeasible: the tested value is the nil constant on this path
+				}
+				// equality with a constant: remembered per term
+				if p, ppol, okp := CondPred(c.Res, iff.Cond); okp && p.Kind == "eq" {
+					t, k := p.A, p.B
+					if isConstTerm(t) && !isConstTerm(k) {
+						t, k = k, t
+					}
+					if isConstTerm(k) && !isConstTerm(t) && !strings.Contains(t, "~") && !strings.Contains(t, "elem(") && !strings.Contains(t, "phi(") && !strings.Contains(t, "cyc:") {
+						holds := (si == 0) == ppol // t == k on this edge
+						if cur, ok := n.eqc[t]; ok {
+							if (cur == k) != holds {
+								continue
+							}
+						}
+						if strings.Contains(n.nec[t], "|"+k+"|") && holds {
+							continue
+						}
+						neq, nne = copyMap(n.eqc), copyMap(n.nec)
+						if holds {
+							neq[t] = k
+						} else {
+							if nne[t] == "" {
+								nne[t] = "|"
+							}
+							if !strings.Contains(nne[t], "|"+k+"|") {
+								nne[t] += k + "|"
+							}
+						}
+					}
 				}
 				if tr[v] {
 					if truth {
@@ -467,12 +591,12 @@ func (c *Checker) search(target *ssa.BasicBlock, atoms []Atom) (bool, []*ssa.Bas
 			}
 			// a φ that merely copies a computed boolean: when that boolean, being true/false, establishes an atom,
 			// the decision is taken at the test of the φ (handled below through aliasCut)
-			ps := pstate{s, nv.key(order)}
+			ps := pstate{s, nv.key(order) + "#" + factKey(neq, nne)}
 			if seen[ps] {
 				continue
 			}
 			seen[ps] = true
-			q = append(q, &node{b: s, val: nv, prev: n})
+			q = append(q, &node{b: s, val: nv, eqc: neq, nec: nne, prev: n})
 		}
 	}
 	return true, nil, false
@@ -533,3 +657,25 @@ func (c *Checker) Conds() []string {
 	}
 	return out
 }
+
+func isConstTerm(s string) bool {
+	if s == "nil" || s == "true" || s == "false" {
+		return true
+	}
+	if strings.HasPrefix(s, "\"") && strings.HasSuffix(s, "\"") {
+		return true
+	}
+	return reInt.MatchString(s)
+}
+
+var reInt = regexp.MustCompile(`^-?[0-9]+$`)
+
+func copyMap(m map[string]string) map[string]string {
+	o := make(map[string]string, len(m)+1)
+	for k, v := range m {
+		o[k] = v
+	}
+	return o
+}
+
+func sortStrings(xs []string) { sort.Strings(xs) }
